@@ -716,4 +716,4 @@ for _bucket in _fixed_tokens_by_first.values():
     _bucket.sort(key=lambda item: len(item.literal), reverse=True)
 
 _line_pattern: re.Pattern[str] = re.compile(r"([ \t]*line\W)|([ \t]*\d+)")
-_pragma_pattern: re.Pattern[str] = re.compile(r"[ \t]*pragma\W")
+_pragma_pattern: re.Pattern[str] = re.compile(r"[ \t]*pragma(?!\w)")
